@@ -8,14 +8,19 @@
  *
  *   fault plan   : fail the k-th armed allocation (single), every armed allocation from the k-th on (sticky), or a
  *                  pseudo-random subset from the k-th on (random, 1/den each).
- *   site log     : return address + size of every armed allocation (for run 0: call-site classes per k).
- *   fault log    : frame-pointer backtrace of the first injected faults (root-cause grouping).
- *   live ledger  : every armed allocation that has not been freed yet, with a short backtrace (leak oracle).
+ *   site log     : return address, size and a cheap calling-context id (return address x stack depth) of every armed
+ *                  allocation (for run 0: call-site classes per k).  MatrixSSL is built with -fomit-frame-pointer, so
+ *                  full backtraces (glibc backtrace(), unwind tables) are only taken where they are needed:
+ *   fault log    : backtrace of the first injected faults (root-cause grouping).
+ *   trace        : backtrace of the allocation with a chosen sequence number (the parent re-runs a leaking case to
+ *                  learn where the leaked block was allocated).
+ *   live ledger  : every armed allocation that has not been freed yet (leak oracle).
  *   auth facts   : counts of signature verifications / certificate validations and how many succeeded.
  */
 #include <stdint.h>
 #include <stddef.h>
 #include <string.h>
+#include <execinfo.h>
 #include "matrixssl/matrixsslApi.h"
 
 #define NOSAN __attribute__((no_sanitize("address", "undefined"))) __attribute__((noinline))
@@ -26,22 +31,25 @@ void *__real_realloc(void *p, size_t n);
 void __real_free(void *p);
 
 #define C19_SITES_MAX (1u << 17)
-#define C19_STACK 6
-#define C19_FAULTLOG 8
+#define C19_STACK 12
+#define C19_FAULTLOG 4
 #define C19_TAB (1u << 16)          /* live ledger capacity (open addressing) */
 
-typedef struct { void *ptr; uint64_t size; uint64_t seq; void *stack[C19_STACK]; } c19_live_t;
-typedef struct { uint64_t seq; uint64_t size; int kind; void *stack[C19_STACK]; } c19_fault_t;
+typedef struct { void *ptr; uint64_t size; uint64_t seq; void *site; } c19_live_t;
+typedef struct { uint64_t seq; uint64_t size; int kind; int depth; void *stack[C19_STACK]; } c19_fault_t;
 
 volatile int c19_armed = 0;
 static uint64_t g_count;            /* armed allocation calls so far (1-based index of the last one) */
 static int g_mode;                  /* 0 none, 1 single, 2 sticky, 3 random */
 static uint64_t g_k, g_seed; static uint32_t g_den;
-static uint64_t g_faults;
-static void *g_site[C19_SITES_MAX]; static uint32_t g_size[C19_SITES_MAX];
-static c19_fault_t g_flog[C19_FAULTLOG];
+static void *g_site[C19_SITES_MAX]; static uint32_t g_size[C19_SITES_MAX]; static uint32_t g_ctx[C19_SITES_MAX];
+static uint64_t g_trace_seq; static c19_fault_t g_trace;
+static c19_fault_t g_flog_own[C19_FAULTLOG]; static uint64_t g_faults_own;
+/* the harness may point these into memory shared with its parent process so that the log survives a crash */
+static c19_fault_t *g_flog = g_flog_own; static uint64_t *g_faults_p = &g_faults_own;
 static c19_live_t g_tab[C19_TAB]; static size_t g_live, g_tomb; static int g_tab_overflow;
 #define TOMB ((void *) 1)
+#define g_faults (*g_faults_p)
 
 /* authentication facts */
 uint64_t c19_verify_calls, c19_verify_ok, c19_validate_calls, c19_validate_ok;
@@ -51,16 +59,21 @@ void c19_disarm(void) { if (c19_armed > 0) c19_armed--; }
 void c19_reset(void)
 {
     c19_armed = 0; g_count = 0; g_mode = 0; g_k = 0; g_seed = 0; g_den = 1; g_faults = 0;
-    memset(g_flog, 0, sizeof g_flog);
+    memset(g_flog, 0, sizeof g_flog_own); g_trace_seq = 0; memset(&g_trace, 0, sizeof g_trace);
     memset(g_tab, 0, sizeof g_tab); g_live = 0; g_tomb = 0; g_tab_overflow = 0;
     c19_verify_calls = c19_verify_ok = c19_validate_calls = c19_validate_ok = 0;
 }
+void c19_set_log(c19_fault_t *log, uint64_t *nfaults) { g_flog = log ? log : g_flog_own; g_faults_p = nfaults ? nfaults : &g_faults_own; }
 void c19_plan(int mode, uint64_t k, uint64_t seed, uint32_t den) { g_mode = mode; g_k = k; g_seed = seed; g_den = den ? den : 1; }
 void c19_plan_off(void) { g_mode = 0; }
 uint64_t c19_alloc_count(void) { return g_count; }
 uint64_t c19_fault_count(void) { return g_faults; }
 void *const *c19_sites(void) { return g_site; }
 const uint32_t *c19_sizes(void) { return g_size; }
+const uint32_t *c19_ctxs(void) { return g_ctx; }
+void c19_trace_seq(uint64_t seq) { g_trace_seq = seq; }
+const c19_fault_t *c19_trace(void) { return &g_trace; }
+void c19_warmup(void) { void *b[4]; (void) backtrace(b, 4); }   /* backtrace() loads libgcc on first use: do that outside any armed window */
 const c19_fault_t *c19_fault_log(void) { return g_flog; }
 size_t c19_live_count(void) { return g_live; }
 int c19_ledger_overflow(void) { return g_tab_overflow; }
@@ -76,25 +89,17 @@ static NOSAN uint64_t mix(uint64_t x)
     x += 0x9E3779B97F4A7C15ULL; x = (x ^ (x >> 30)) * 0xBF58476D1CE4E5B9ULL; x = (x ^ (x >> 27)) * 0x94D049BB133111EBULL;
     return x ^ (x >> 31);
 }
-/* frame-pointer walk (everything in the target is built with -fno-omit-frame-pointer) */
-static NOSAN void walk(void **fp, void *ret0, void **out)
+static NOSAN void snap(c19_fault_t *f, uint64_t seq, size_t n, int kind, void *site)
 {
-    int i; uintptr_t lo = (uintptr_t) fp;
-    for (i = 0; i < C19_STACK; i++) out[i] = 0;
-    out[0] = ret0;
-    for (i = 1; i < C19_STACK; i++)
-    {
-        void **nfp;
-        if (!fp || ((uintptr_t) fp & 7)) break;
-        nfp = (void **) fp[0];
-        if ((uintptr_t) nfp <= (uintptr_t) fp || (uintptr_t) nfp > lo + (8u << 20)) break;
-        out[i] = nfp[1];
-        if (!out[i]) break;
-        fp = nfp;
-    }
+    void *b[C19_STACK + 4]; int d, i, from = -1;
+    d = backtrace(b, C19_STACK + 4);      /* leading frames: snap, account, __wrap_*; the stack proper starts at the wrap's return address */
+    for (i = 0; i < d && i < 5; i++) if (b[i] == site) { from = i; break; }
+    f->seq = seq; f->size = n; f->kind = kind; f->depth = 0;
+    if (from < 0) { f->stack[f->depth++] = site; from = d; }
+    for (i = from; i < d && f->depth < C19_STACK; i++) f->stack[f->depth++] = b[i];
 }
 static NOSAN size_t slot(void *p) { return (size_t) (mix((uint64_t) (uintptr_t) p) & (C19_TAB - 1)); }
-static NOSAN void led_add(void *p, size_t n, uint64_t seq, void **stack)
+static NOSAN void led_add(void *p, size_t n, uint64_t seq, void *site)
 {
     size_t i, s;
     if (g_live + g_tomb >= C19_TAB - (C19_TAB >> 3))
@@ -110,8 +115,7 @@ static NOSAN void led_add(void *p, size_t n, uint64_t seq, void **stack)
     s = slot(p);
     while (g_tab[s].ptr && g_tab[s].ptr != TOMB) s = (s + 1) & (C19_TAB - 1);
     if (g_tab[s].ptr == TOMB) g_tomb--;
-    g_tab[s].ptr = p; g_tab[s].size = n; g_tab[s].seq = seq;
-    for (i = 0; i < C19_STACK; i++) g_tab[s].stack[i] = stack[i];
+    g_tab[s].ptr = p; g_tab[s].size = n; g_tab[s].seq = seq; g_tab[s].site = site;
     g_live++;
 }
 static NOSAN int led_del(void *p, c19_live_t *old)
@@ -135,18 +139,18 @@ static NOSAN int should_fail(void)
     default: return 0;
     }
 }
-static NOSAN int account(size_t n, int kind, void **stack)
+static NOSAN int account(size_t n, int kind, void *site, void *frame)
 {
     g_count++;
-    if (g_count <= C19_SITES_MAX) { g_site[g_count - 1] = stack[0]; g_size[g_count - 1] = (uint32_t) n; }
+    if (g_count <= C19_SITES_MAX)
+    {
+        g_site[g_count - 1] = site; g_size[g_count - 1] = (uint32_t) n;
+        g_ctx[g_count - 1] = (uint32_t) (mix((uint64_t) (uintptr_t) site ^ ((uint64_t) (uintptr_t) frame * 0x9E3779B97F4A7C15ULL)) >> 32);
+    }
+    if (g_count == g_trace_seq) snap(&g_trace, g_count, n, kind, site);
     if (should_fail())
     {
-        if (g_faults < C19_FAULTLOG)
-        {
-            int i; c19_fault_t *f = &g_flog[g_faults];
-            f->seq = g_count; f->size = n; f->kind = kind;
-            for (i = 0; i < C19_STACK; i++) f->stack[i] = stack[i];
-        }
+        if (g_faults < C19_FAULTLOG) snap(&g_flog[g_faults], g_count, n, kind, site);
         g_faults++;
         return 1;
     }
@@ -155,41 +159,38 @@ static NOSAN int account(size_t n, int kind, void **stack)
 
 NOSAN void *__wrap_malloc(size_t n)
 {
-    void *st[C19_STACK], *p;
+    void *st = __builtin_return_address(0), *p;
     if (!c19_armed) return __real_malloc(n);
-    walk((void **) __builtin_frame_address(0), __builtin_return_address(0), st);
-    if (account(n, 0, st)) return NULL;
+    if (account(n, 0, st, __builtin_frame_address(0))) return NULL;
     p = __real_malloc(n);
     if (p) led_add(p, n, g_count, st);
     return p;
 }
 NOSAN void *__wrap_calloc(size_t a, size_t b)
 {
-    void *st[C19_STACK], *p;
+    void *st = __builtin_return_address(0), *p;
     if (!c19_armed) return __real_calloc(a, b);
-    walk((void **) __builtin_frame_address(0), __builtin_return_address(0), st);
-    if (account(a * b, 1, st)) return NULL;
+    if (account(a * b, 1, st, __builtin_frame_address(0))) return NULL;
     p = __real_calloc(a, b);
     if (p) led_add(p, a * b, g_count, st);
     return p;
 }
 NOSAN void *__wrap_realloc(void *old, size_t n)
 {
-    void *st[C19_STACK], *p; c19_live_t e; int tracked;
+    void *st = __builtin_return_address(0), *p; c19_live_t e; int tracked;
     if (!c19_armed)
     {
         /* keep following an object that was allocated inside an armed window */
         tracked = old ? led_del(old, &e) : 0;
         p = __real_realloc(old, n);
-        if (tracked) { if (p) led_add(p, n, e.seq, e.stack); else if (n) led_add(old, e.size, e.seq, e.stack); }
+        if (tracked) { if (p) led_add(p, n, e.seq, e.site); else if (n) led_add(old, e.size, e.seq, e.site); }
         return p;
     }
-    walk((void **) __builtin_frame_address(0), __builtin_return_address(0), st);
-    if (account(n, 2, st)) return NULL;        /* the old block stays valid, exactly like a failing realloc */
+    if (account(n, 2, st, __builtin_frame_address(0))) return NULL;        /* the old block stays valid, exactly like a failing realloc */
     tracked = old ? led_del(old, &e) : 0;
     p = __real_realloc(old, n);
     if (p) led_add(p, n, g_count, st);
-    else if (tracked && n) led_add(old, e.size, e.seq, e.stack);
+    else if (tracked && n) led_add(old, e.size, e.seq, e.site);
     return p;
 }
 NOSAN void __wrap_free(void *p)
